@@ -2017,7 +2017,9 @@ REQUEST-STATUS:5.1;Service unavailable\n\
 
 	nwr += fdwrite(rpl_veh, strlenof(rpl_veh));
 
-	nwr += fdprintf("UID:%s\n", obint_name(ins.o));
+	/* an object that came without anything to name it by has no name,
+	 * obint_name() would hand out the first one it ever saw */
+	nwr += fdprintf("UID:%s\n", ins.o ? obint_name(ins.o) : "");
 	nwr += fdprintf("DTSTAMP:%s\n", stmp);
 	nwr += fdprintf("ATTENDEE:echse\n");
 	switch (ins.v) {
